@@ -22,6 +22,9 @@ def pHB : P HB := do
   | 2 => pure .panic
   | 3 => pure .block
   | 4 => pure .cancelOk
+  -- 5..11: the other ways to panic (error value, custom type, five genuine runtime errors)
+  | 5 => pure .panic | 6 => pure .panic | 7 => pure .panic | 8 => pure .panic
+  | 9 => pure .panic | 10 => pure .panic | 11 => pure .panic
   | _ => failure
 
 def pListen : P Listen := do
